@@ -279,12 +279,14 @@ func c16Session(r *ev.Run, m *dyn.Model, shape c16shape, f c16fault, batch, idx 
 
 	// bounded progress: connected again, or no new attempt for a long quiet period
 	lastAccepted, quiet := px.Accepted(), 0
-	for i := 0; ; i++ {
+	for {
 		if cl.Connected() && px.Pending() == 0 {
 			break
 		}
-		if f.kind != "none" && px.Pending() > 0 && i > 3000 {
-			break // the fault never fired in this run (boundary beyond the session): nothing to wait for
+		if cl.Connected() && quiet > 300 {
+			// connected and no connection attempt for 3 s while a scripted fault is still
+			// pending: its boundary lies beyond what is left of this session, it will not fire
+			break
 		}
 		time.Sleep(10 * time.Millisecond)
 		if a := px.Accepted(); a != lastAccepted {
@@ -292,7 +294,7 @@ func c16Session(r *ev.Run, m *dyn.Model, shape c16shape, f c16fault, batch, idx 
 		} else {
 			quiet++
 		}
-		if quiet > 3000 {
+		if quiet > 3000 && !cl.Connected() {
 			res.findings = append(res.findings, finding{"C16/does-not-reconnect/" + f.kind, fmt.Sprintf("30 s after the last connection attempt the client is still not connected (attempts so far: %d)", lastAccepted)})
 			res.log = px.Log
 			return res
@@ -366,7 +368,7 @@ func c16Child(r *ev.Run, batch int) {
 	}
 	nb := r.N(8, 32)
 	c16LeaderPart(r, m, batch, nb)
-	shapes := r.N(2, 24)
+	shapes := r.N(4, 24)
 	methods := []string{ovsdb.MonitorRPC, ovsdb.ConditionalMonitorRPC, ovsdb.ConditionalMonitorSinceRPC}
 	idx := 0
 	for si := 0; si < shapes; si++ {
